@@ -22,7 +22,7 @@ import (
 
 func init() { modes["C16CONN"] = runC16ConnChild }
 
-var c16Points = []string{"before-connect", "after-connect", "mid-handshake", "after-handshake", "requests-in-flight", "mid-response", "mid-paging"}
+var c16Points = []string{"before-connect", "accept-pending", "after-connect", "mid-handshake", "after-handshake", "requests-in-flight", "mid-response", "mid-paging"}
 var c16Actors = []string{"client-close", "server-conn-close", "server-close", "network-loss", "client-context-cancel"}
 var c16Versions = []primitive.ProtocolVersion{primitive.ProtocolVersion4, primitive.ProtocolVersion5, primitive.ProtocolVersionDse2}
 
@@ -45,7 +45,7 @@ func c16Scenarios() []c16Scn {
 					continue
 				}
 				for _, busy := range []bool{false, true} {
-					if busy && (p == "before-connect" || p == "after-connect" || p == "mid-handshake") {
+					if busy && (p == "before-connect" || p == "accept-pending" || p == "after-connect" || p == "mid-handshake") {
 						continue
 					}
 					l = append(l, c16Scn{p, a, v, busy, false})
@@ -173,6 +173,26 @@ func runC16Scenario(res *lp.Result, s c16Scn) {
 		clientConn, err = cl.Connect(clientCtx)
 		if err != nil {
 			res.Add(lp.Finding{Kind: "harness", What: "cannot connect", Input: id, Impl: err.Error()})
+			return
+		}
+		if s.point == "accept-pending" {
+			// the application waits in Accept for THIS client's connection (which the server knows under another address — the proxy
+			// stands between them — so the wait is still going on) when the fault comes
+			acc := make(chan error, 1)
+			go func() { _, err := srv.Accept(clientConn); acc <- err }()
+			time.Sleep(100 * time.Millisecond)
+			inject()
+			select {
+			case <-acc:
+			case <-time.After(8 * time.Second):
+				viol("blocked caller does not return after the fault: Accept", goroutineDump())
+			}
+			if s.actor != "server-close" {
+				if !within(5*time.Second, func() { srv.Close() }) {
+					viol("Close does not return: server", goroutineDump())
+				}
+			}
+			clientConn.Close()
 			return
 		}
 		serverConn, err = srv.AcceptAny()
